@@ -27,7 +27,7 @@ RULE = ('one case = (writer in {OutputToJSON, OutputToFile(pickle), atomic_write
         'kind, fault kind and position k): every k for serializer-raises-after-k-chunks and '
         'k-th-write-raises, close raises (for atomic_write: the final flush inside close), move/rename raises, real mid-stream serializer '
         'failure, no fault; faults raising KeyboardInterrupt / ThreadTerminationError instead of an '
-        'OSError; two writers publishing to one destination at overlapping times; the same callback object publishing the next record after a failed publication; and (thorough, plus a few in quick) the writer running in a child '
+        'OSError; two writers publishing to one destination at overlapping times; the same callback object publishing the next record after a failed publication; the writer in a child with RLIMIT_FSIZE below / above the size of the publication; and (thorough, plus a few in quick) the writer running in a child '
         'process that is SIGKILLed by strace at its N-th file-system system call for every N; '
         'distinct = distinct case; non-trivial = a fault fired (or a success was compared '
         'byte for byte) and the destination was inspected')
